@@ -90,9 +90,24 @@ func (b *build) chartYAML() []byte {
 	return append(append([]byte{}, b.chartPre...), s...)
 }
 
-// yamlStr quotes a scalar for Chart.yaml; names and versions here are ASCII.
+// yamlStr writes a scalar for Chart.yaml as a YAML double-quoted string;
+// control, format and other non-ASCII characters as \uXXXX escapes.
 func yamlStr(s string) string {
-	return "\"" + strings.NewReplacer("\\", "\\\\", "\"", "\\\"").Replace(s) + "\""
+	var sb strings.Builder
+	sb.WriteByte('"')
+	for _, r := range s {
+		switch {
+		case r == '\\' || r == '"':
+			sb.WriteByte('\\')
+			sb.WriteRune(r)
+		case r < 0x20 || r == 0x7f || (r > 0x7e && r <= 0xffff):
+			fmt.Fprintf(&sb, "\\u%04x", r)
+		default:
+			sb.WriteRune(r)
+		}
+	}
+	sb.WriteByte('"')
+	return sb.String()
 }
 
 // fileSet is the finished chart as a sorted list of files.
